@@ -1,1 +1,2 @@
 //! independent decoders / reference semantics
+pub mod preprocess;
